@@ -45,14 +45,18 @@ LEMMA SrvInv == ASSUME IndInv, NEW m, Srv(m) PROVE IndInv'
         BY <1>10
   <1> QED BY <1>1, <1>2, <1>3, <1>4, <1>5, <1>6, <1>7, <1>8, <1>9, <1>10 DEF Srv
 
+LEMMA TrainInv == ASSUME IndInv, NEW ms, SrvTrain(ms) PROVE IndInv'
+  BY DEF SrvTrain, IndInv, States, Stages, StageOf, Quiet
+
 LEMMA StepInv == IndInv /\ [Next]_vars => IndInv'
   <1> SUFFICES ASSUME IndInv, [Next]_vars PROVE IndInv' OBVIOUS
   <1>1. CASE \E m \in ModelMsgs : Srv(m) BY <1>1, SrvInv
+  <1>1a. CASE \E ms \in ModelTrains : SrvTrain(ms) BY <1>1a, TrainInv
   <1>2. CASE \E e \in ModelInputs, len \in BOOLEAN : Input(e, len)
         BY <1>2 DEF Input, IndInv, States, Stages, StageOf
   <1>3. CASE Shutdown BY <1>3 DEF Shutdown, IndInv, States, Stages, StageOf
   <1>4. CASE UNCHANGED vars BY <1>4 DEF vars, IndInv, States, Stages, StageOf
-  <1> QED BY <1>1, <1>2, <1>3, <1>4 DEF Next
+  <1> QED BY <1>1, <1>1a, <1>2, <1>3, <1>4 DEF Next
 
 THEOREM Safety == Spec => []IndInv
   BY InitInv, StepInv, PTL DEF Spec
@@ -90,11 +94,13 @@ LEMMA GatesStep == Gates /\ [Next]_vars => Gates'
   <1> SUFFICES ASSUME Gates, [Next]_vars PROVE Gates' OBVIOUS
   <1>0. IndInv' BY StepInv DEF Gates
   <1>1. CASE \E m \in ModelMsgs : Srv(m) BY <1>1, GatesSrv
+  <1>1a. CASE \E ms \in ModelTrains : SrvTrain(ms)
+        BY <1>0, <1>1a DEF SrvTrain, Quiet, Gates, IndInv, BitmapsInWindow, InputGatedCore
   <1>2. CASE \E e \in ModelInputs, len \in BOOLEAN : Input(e, len)
         BY <1>0, <1>2 DEF Input, Gates, IndInv, States, Stages, StageOf, BitmapsInWindow, InputGatedCore
   <1>3. CASE Shutdown BY <1>0, <1>3 DEF Shutdown, Gates, IndInv, BitmapsInWindow, InputGatedCore
   <1>4. CASE UNCHANGED vars BY <1>0, <1>4 DEF vars, Gates, IndInv, BitmapsInWindow, InputGatedCore
-  <1> QED BY <1>1, <1>2, <1>3, <1>4 DEF Next
+  <1> QED BY <1>1, <1>1a, <1>2, <1>3, <1>4 DEF Next
 
 THEOREM GatesHold == Spec => []Gates
   BY GatesInit, GatesStep, PTL DEF Spec
